@@ -11,8 +11,8 @@ From DippyV Require Import Base.Str Gen.Tables Model.ConfigText
 (* the model's directive table, setting names, line separator and escapable characters are the ones
    the translator reads out of config.py on every run *)
 Theorem C11_tie :
-  CFG_RULE_DIRECTIVES = map dspec_row rule_dirs /\
-  CFG_DIRECTIVES = map d_name rule_dirs ++ [$"alias"; $"set"] /\
+  CFG_RULE_DIRECTIVES = sort_by row_name (map dspec_row rule_dirs) /\
+  CFG_DIRECTIVES = sort_by (fun s => s) (map d_name rule_dirs ++ [$"alias"; $"set"]) /\
   CFG_LINE_SEP = [NL] /\
   (CFG_BOOL_SETTINGS = [$"log_full"] /\ CFG_DEFAULT_VALUES = [$"allow"; $"ask"]) /\
   CFG_ESCAPABLE = [[DQ]; [BS]].
@@ -85,6 +85,13 @@ Theorem C11_local_settings : forall h expu ls c,
   c_log_full c = existsb (sets_log_full (Some h) expu) ls.
 Proof. exact local_settings. Qed.
 Print Assumptions C11_local_settings.
+
+(* two texts joined by a newline: the second is parsed in the state the first leaves behind *)
+Theorem C11_concat : forall h expu a b,
+  parse_config (Some h) expu (a ++ [NL] ++ b)
+  = Ok (config_of (run (Some h) expu (lines_of b) (run (Some h) expu (lines_of a) init))).
+Proof. exact (fun h expu a b => parse_config_app (Some h) expu h a b eq_refl). Qed.
+Print Assumptions C11_concat.
 
 (* ---------------------------------------------------------------- round trips *)
 Theorem C11_unescape : forall m : str, unescape (escape m) = m.
